@@ -85,6 +85,17 @@ theorem padPanelG_error (cfg : Cfg) (pw : Nat) (line : List Item) (fill : Option
     generalize toFill cfg fill = f at h
     cases f <;> (try simp only at h) <;> (try split at h) <;> cases h
 
+/-- Since fix d6cf9d0 (`Generated.wrapTruncAssertsWideCluster = false`, read from the source on every run)
+`truncate_str` has no panic point either: `pad_panel_line_to_width` never panics. -/
+theorem padPanelG_total (hno : Generated.wrapTruncAssertsWideCluster = false) (cfg : Cfg) (pw : Nat)
+    (line : List Item) (fill : Option FillM) : ∃ out, padPanelG cfg pw line fill = .ok out := by
+  cases h : padPanelG cfg pw line fill with
+  | ok o => exact ⟨o, rfl⟩
+  | error e =>
+    obtain ⟨_, ht⟩ := padPanelG_error cfg pw line fill e h
+    obtain ⟨o, ho⟩ := SideBySide.truncateStr_total hno line pw cfg.tail
+    rw [ho] at ht; cases ht
+
 /-! ## One panel -/
 
 /-- What is appended to a panel line that fits its panel. -/
